@@ -966,3 +966,107 @@ package core
 //@       ptr(out[m], "*gdbi.BaseTraveler").Aggregation.Name == a.Name && isAStr(ptr(out[m], "*gdbi.BaseTraveler").Aggregation.Key) &&
 //@       tcnt(astr(ptr(out[m], "*gdbi.BaseTraveler").Aggregation.Key), len(src)) > 0 &&
 //@       same(ptr(out[m], "*gdbi.BaseTraveler").Aggregation.Value, i2f(tcnt(astr(ptr(out[m], "*gdbi.BaseTraveler").Aggregation.Key), len(src))))
+
+// ---- C01: both()/bothE() -------------------------------------------------------------
+// The step runs two inner steps (in and out direction) over the same input: a signal is
+// forwarded at once; every other traveler is handed, in order, to each inner step; when
+// the input ends the inner inputs are closed; the output then continues with everything
+// the first inner step produced, followed by everything the second one produced, and is
+// closed. (The inner steps' own meaning is proved separately; that they run concurrently
+// and their buffers are bounded is not modelled - see the C07 observation in DESIGN 11.6.)
+//@ iface github.com/bmeg/grip/gdbi.Processor.Process
+//@   params self ctx man in out
+//@   pure
+//@ func (both).Process$1
+//@   vars out b ctx man in procs chanIn chanOut i i p t ch ch i c
+//@   property C01 C06
+//@   option prelude=trav
+//@   option load=gdbi
+//@   nopanic
+//@   requires fresh: rd(in) == 0 && wr(out) == 0 && !closed(out) && in != out && out != nil && in != nil && in < alloc && out < alloc
+//@   requires items: forall j :: 0 <= j && j < len(in) ==> in[j] != nil
+//@   axiom n0: nonsig(in, 0) == 0
+//@   axiom c0: csum(0) == 0
+//@   axiom nS: forall k :: 0 <= k ==> nonsig(in, k + 1) == nonsig(in, k) + ite(tSignal(in[k]), 0, 1)
+//@   loop 1 invariant made: rangeindex < len(procs) && len(chanIn) == len(procs) && len(chanOut) == len(procs) && soff(chanIn) == 0 && soff(chanOut) == 0 && sref(chanIn) != sref(chanOut) &&
+//@       sref(chanIn) > 0 && sref(chanIn) < alloc && sref(chanOut) > 0 && sref(chanOut) < alloc && !closed(out) && wr(out) == 0 && rd(in) == 0
+//@   loop 1 invariant chans: forall k :: 0 <= k && k <= rangeindex ==> chanIn[k] > 0 && chanIn[k] < alloc && chanOut[k] > 0 && chanOut[k] < alloc &&
+//@       chanIn[k] != in && chanIn[k] != out && chanOut[k] != in && chanOut[k] != out && wr(chanIn[k]) == 0 && !closed(chanIn[k]) && rd(chanOut[k]) == 0
+//@   loop 1 invariant distinct: forall k, m :: 0 <= k && k <= rangeindex && 0 <= m && m <= rangeindex ==> chanIn[k] != chanOut[m] && (k != m ==> chanIn[k] != chanIn[m] && chanOut[k] != chanOut[m])
+//@   loop 2 invariant shape: len(chanIn) == len(procs) && len(chanOut) == len(procs) && soff(chanIn) == 0 && soff(chanOut) == 0 && sref(chanIn) != sref(chanOut) && sref(chanIn) > 0 && sref(chanIn) < alloc && sref(chanOut) > 0 && sref(chanOut) < alloc && !closed(out)
+//@   loop 2 invariant chans: forall k :: 0 <= k && k < len(procs) ==> chanIn[k] > 0 && chanIn[k] < alloc && chanOut[k] > 0 && chanOut[k] < alloc &&
+//@       chanIn[k] != in && chanIn[k] != out && chanOut[k] != in && chanOut[k] != out
+//@   loop 2 invariant distinct: forall k, m :: 0 <= k && k < len(procs) && 0 <= m && m < len(procs) ==> chanIn[k] != chanOut[m] && (k != m ==> chanIn[k] != chanIn[m] && chanOut[k] != chanOut[m])
+//@   loop 2 invariant idle: rangeindex < len(procs) && wr(out) == 0 && rd(in) == 0 && (forall k :: 0 <= k && k < len(procs) ==> wr(chanIn[k]) == 0 && !closed(chanIn[k]) && rd(chanOut[k]) == 0)
+//@   loop 3 invariant items: forall j :: 0 <= j && j < len(in) ==> in[j] != nil && in[j] == old(in[j])
+//@   loop 3 invariant shape: len(chanIn) == len(procs) && len(chanOut) == len(procs) && soff(chanIn) == 0 && soff(chanOut) == 0 && sref(chanIn) != sref(chanOut) && sref(chanIn) > 0 && sref(chanIn) < alloc && sref(chanOut) > 0 && sref(chanOut) < alloc && !closed(out)
+//@   loop 3 invariant chans: forall k :: 0 <= k && k < len(procs) ==> chanIn[k] > 0 && chanIn[k] < alloc && chanOut[k] > 0 && chanOut[k] < alloc &&
+//@       chanIn[k] != in && chanIn[k] != out && chanOut[k] != in && chanOut[k] != out
+//@   loop 3 invariant distinct: forall k, m :: 0 <= k && k < len(procs) && 0 <= m && m < len(procs) ==> chanIn[k] != chanOut[m] && (k != m ==> chanIn[k] != chanIn[m] && chanOut[k] != chanOut[m])
+//@   loop 3 invariant pos: 0 <= rd(in) && rd(in) <= len(in) && nonsig(in, rd(in)) >= 0 && nonsig(in, rd(in)) <= rd(in)
+//@   loop 3 invariant fed: forall k :: 0 <= k && k < len(procs) ==> wr(chanIn[k]) == nonsig(in, rd(in)) && !closed(chanIn[k]) && rd(chanOut[k]) == 0
+//@   loop 3 invariant sigs: wr(out) == rd(in) - nonsig(in, rd(in))
+//@   loop 3 invariant mono: forall j :: 0 <= j && j <= rd(in) ==> nonsig(in, j) >= 0 && nonsig(in, j) <= j && nonsig(in, j) <= nonsig(in, rd(in)) && j - nonsig(in, j) <= rd(in) - nonsig(in, rd(in))
+//@   loop 3 invariant sigelems: forall j :: 0 <= j && j < rd(in) && tSignal(in[j]) ==> out[j - nonsig(in, j)] == in[j]
+//@   loop 3 invariant fedelems: forall k, j :: 0 <= k && k < len(procs) && 0 <= j && j < rd(in) && !tSignal(in[j]) ==> chanIn[k][nonsig(in, j)] == in[j]
+//@   loop 4 invariant items: forall j :: 0 <= j && j < len(in) ==> in[j] != nil && in[j] == old(in[j])
+//@   loop 4 invariant shape: len(chanIn) == len(procs) && len(chanOut) == len(procs) && soff(chanIn) == 0 && soff(chanOut) == 0 && sref(chanIn) != sref(chanOut) && sref(chanIn) > 0 && sref(chanIn) < alloc && sref(chanOut) > 0 && sref(chanOut) < alloc && !closed(out)
+//@   loop 4 invariant chans: forall k :: 0 <= k && k < len(procs) ==> chanIn[k] > 0 && chanIn[k] < alloc && chanOut[k] > 0 && chanOut[k] < alloc &&
+//@       chanIn[k] != in && chanIn[k] != out && chanOut[k] != in && chanOut[k] != out
+//@   loop 4 invariant distinct: forall k, m :: 0 <= k && k < len(procs) && 0 <= m && m < len(procs) ==> chanIn[k] != chanOut[m] && (k != m ==> chanIn[k] != chanIn[m] && chanOut[k] != chanOut[m])
+//@   loop 4 invariant pos: 0 < rd(in) && rd(in) <= len(in) && !tSignal(in[rd(in) - 1]) && rangeindex < len(procs) && nonsig(in, rd(in) - 1) >= 0 && nonsig(in, rd(in) - 1) <= rd(in) - 1
+//@   loop 4 invariant fed: forall k :: 0 <= k && k < len(procs) ==> wr(chanIn[k]) == nonsig(in, rd(in) - 1) + ite(k <= rangeindex, 1, 0) && !closed(chanIn[k]) && rd(chanOut[k]) == 0
+//@   loop 4 invariant sigs: wr(out) == rd(in) - 1 - nonsig(in, rd(in) - 1)
+//@   loop 4 invariant mono: forall j :: 0 <= j && j <= rd(in) - 1 ==> nonsig(in, j) >= 0 && nonsig(in, j) <= j && nonsig(in, j) <= nonsig(in, rd(in) - 1) && j - nonsig(in, j) <= rd(in) - 1 - nonsig(in, rd(in) - 1)
+//@   loop 4 invariant sigelems: forall j :: 0 <= j && j < rd(in) - 1 && tSignal(in[j]) ==> out[j - nonsig(in, j)] == in[j]
+//@   loop 4 invariant fedelems: forall k, j :: 0 <= k && k < len(procs) && 0 <= j && j < rd(in) - 1 && !tSignal(in[j]) ==> chanIn[k][nonsig(in, j)] == in[j]
+//@   loop 4 invariant fedcur: forall k :: 0 <= k && k <= rangeindex ==> chanIn[k][nonsig(in, rd(in) - 1)] == in[rd(in) - 1]
+//@   loop 5 invariant items: forall j :: 0 <= j && j < len(in) ==> in[j] != nil && in[j] == old(in[j])
+//@   loop 5 invariant mono: forall j :: 0 <= j && j <= len(in) ==> nonsig(in, j) >= 0 && nonsig(in, j) <= j && nonsig(in, j) <= nonsig(in, len(in)) && j - nonsig(in, j) <= len(in) - nonsig(in, len(in))
+//@   loop 5 invariant sigelems: forall j :: 0 <= j && j < len(in) && tSignal(in[j]) ==> out[j - nonsig(in, j)] == in[j]
+//@   loop 5 invariant fedelems: forall k, j :: 0 <= k && k < len(procs) && 0 <= j && j < len(in) && !tSignal(in[j]) ==> chanIn[k][nonsig(in, j)] == in[j]
+//@   loop 5 invariant shape: len(chanIn) == len(procs) && len(chanOut) == len(procs) && soff(chanIn) == 0 && soff(chanOut) == 0 && sref(chanIn) != sref(chanOut) && sref(chanIn) > 0 && sref(chanIn) < alloc && sref(chanOut) > 0 && sref(chanOut) < alloc && !closed(out)
+//@   loop 5 invariant chans: forall k :: 0 <= k && k < len(procs) ==> chanIn[k] > 0 && chanIn[k] < alloc && chanOut[k] > 0 && chanOut[k] < alloc &&
+//@       chanIn[k] != in && chanIn[k] != out && chanOut[k] != in && chanOut[k] != out
+//@   loop 5 invariant distinct: forall k, m :: 0 <= k && k < len(procs) && 0 <= m && m < len(procs) ==> chanIn[k] != chanOut[m] && (k != m ==> chanIn[k] != chanIn[m] && chanOut[k] != chanOut[m])
+//@   loop 5 invariant closing: rangeindex < len(procs) && rd(in) == len(in) && wr(out) == len(in) - nonsig(in, len(in)) &&
+//@       (forall k :: 0 <= k && k < len(procs) ==> wr(chanIn[k]) == nonsig(in, len(in)) && (closed(chanIn[k]) <==> k <= rangeindex) && rd(chanOut[k]) == 0)
+//@   loop 6 invariant items: forall j :: 0 <= j && j < len(in) ==> in[j] != nil && in[j] == old(in[j])
+//@   loop 6 invariant mono: forall j :: 0 <= j && j <= len(in) ==> nonsig(in, j) >= 0 && nonsig(in, j) <= j && nonsig(in, j) <= nonsig(in, len(in)) && j - nonsig(in, j) <= len(in) - nonsig(in, len(in))
+//@   loop 6 invariant sigelems: forall j :: 0 <= j && j < len(in) && tSignal(in[j]) ==> out[j - nonsig(in, j)] == in[j]
+//@   loop 6 invariant fedelems: forall k, j :: 0 <= k && k < len(procs) && 0 <= j && j < len(in) && !tSignal(in[j]) ==> chanIn[k][nonsig(in, j)] == in[j]
+//@   loop 6 invariant shape: len(chanIn) == len(procs) && len(chanOut) == len(procs) && soff(chanIn) == 0 && soff(chanOut) == 0 && sref(chanIn) != sref(chanOut) && sref(chanIn) > 0 && sref(chanIn) < alloc && sref(chanOut) > 0 && sref(chanOut) < alloc && !closed(out)
+//@   loop 6 invariant chans: forall k :: 0 <= k && k < len(procs) ==> chanIn[k] > 0 && chanIn[k] < alloc && chanOut[k] > 0 && chanOut[k] < alloc &&
+//@       chanIn[k] != in && chanIn[k] != out && chanOut[k] != in && chanOut[k] != out
+//@   loop 6 invariant distinct: forall k, m :: 0 <= k && k < len(procs) && 0 <= m && m < len(procs) ==> chanIn[k] != chanOut[m] && (k != m ==> chanIn[k] != chanIn[m] && chanOut[k] != chanOut[m])
+//@   loop 6 axiom cS: forall k :: 0 <= k && k < len(procs) ==> csum(k + 1) == csum(k) + len(chanOut[k]) && len(chanOut[k]) >= 0
+//@   loop 6 invariant inputs: rd(in) == len(in) && (forall k :: 0 <= k && k < len(procs) ==> closed(chanIn[k]) && wr(chanIn[k]) == nonsig(in, len(in)))
+//@   loop 6 invariant pos: -1 <= rangeindex && rangeindex < len(procs)
+//@   loop 6 invariant reads: forall k :: 0 <= k && k < len(procs) ==> rd(chanOut[k]) == ite(k <= rangeindex, len(chanOut[k]), 0)
+//@   loop 6 invariant drained: forall k, m :: 0 <= k && k < rangeindex + 1 && 0 <= m && m < len(chanOut[k]) ==> out[(len(in) - nonsig(in, len(in))) + csum(k) + m] == chanOut[k][m]
+//@   loop 6 invariant sent: wr(out) == len(in) - nonsig(in, len(in)) + csum(rangeindex + 1)
+//@   loop 7 invariant items: forall j :: 0 <= j && j < len(in) ==> in[j] != nil && in[j] == old(in[j])
+//@   loop 7 invariant mono: forall j :: 0 <= j && j <= len(in) ==> nonsig(in, j) >= 0 && nonsig(in, j) <= j && nonsig(in, j) <= nonsig(in, len(in)) && j - nonsig(in, j) <= len(in) - nonsig(in, len(in))
+//@   loop 7 invariant sigelems: forall j :: 0 <= j && j < len(in) && tSignal(in[j]) ==> out[j - nonsig(in, j)] == in[j]
+//@   loop 7 invariant fedelems: forall k, j :: 0 <= k && k < len(procs) && 0 <= j && j < len(in) && !tSignal(in[j]) ==> chanIn[k][nonsig(in, j)] == in[j]
+//@   loop 7 invariant shape: len(chanIn) == len(procs) && len(chanOut) == len(procs) && soff(chanIn) == 0 && soff(chanOut) == 0 && sref(chanIn) != sref(chanOut) && sref(chanIn) > 0 && sref(chanIn) < alloc && sref(chanOut) > 0 && sref(chanOut) < alloc && !closed(out)
+//@   loop 7 invariant chans: forall k :: 0 <= k && k < len(procs) ==> chanIn[k] > 0 && chanIn[k] < alloc && chanOut[k] > 0 && chanOut[k] < alloc &&
+//@       chanIn[k] != in && chanIn[k] != out && chanOut[k] != in && chanOut[k] != out
+//@   loop 7 invariant distinct: forall k, m :: 0 <= k && k < len(procs) && 0 <= m && m < len(procs) ==> chanIn[k] != chanOut[m] && (k != m ==> chanIn[k] != chanIn[m] && chanOut[k] != chanOut[m])
+//@   loop 7 axiom cS: forall k :: 0 <= k && k < len(procs) ==> csum(k + 1) == csum(k) + len(chanOut[k]) && len(chanOut[k]) >= 0
+//@   loop 7 invariant inputs: rd(in) == len(in) && (forall k :: 0 <= k && k < len(procs) ==> closed(chanIn[k]) && wr(chanIn[k]) == nonsig(in, len(in)))
+//@   loop 7 invariant pos: 0 <= i && i < len(procs) && rangechan == chanOut[i] && 0 <= rd(chanOut[i]) && rd(chanOut[i]) <= len(chanOut[i])
+//@   loop 7 invariant reads: forall k :: 0 <= k && k < len(procs) && k != i ==> rd(chanOut[k]) == ite(k < i, len(chanOut[k]), 0)
+//@   loop 7 invariant drained: forall k, m :: 0 <= k && k < i && 0 <= m && m < len(chanOut[k]) ==> out[(len(in) - nonsig(in, len(in))) + csum(k) + m] == chanOut[k][m]
+//@   loop 7 invariant cur: forall m :: 0 <= m && m < rd(chanOut[i]) ==> out[(len(in) - nonsig(in, len(in))) + csum(i) + m] == chanOut[i][m]
+//@   loop 7 invariant sent: wr(out) == len(in) - nonsig(in, len(in)) + csum(i) + rd(chanOut[i])
+//@   ensures closed: closed(out)
+//@   ensures drained: rd(in) == len(in)
+//@   ensures count: wr(out) == (len(in) - nonsig(in, len(in))) + csum(len(procs))
+//@   ensures vv: b.lastType == gdbi.VertexData && b.toType != gdbi.EdgeData ==> len(procs) == 2 && dyn(procs[0], "*LookupVertexAdjIn") && ptr(procs[0], "*LookupVertexAdjIn") != nil && ptr(procs[0], "*LookupVertexAdjIn").db == b.db && same(ptr(procs[0], "*LookupVertexAdjIn").labels, b.labels) && ptr(procs[0], "*LookupVertexAdjIn").loadData == b.loadData && dyn(procs[1], "*LookupVertexAdjOut") && ptr(procs[1], "*LookupVertexAdjOut") != nil && ptr(procs[1], "*LookupVertexAdjOut").db == b.db && same(ptr(procs[1], "*LookupVertexAdjOut").labels, b.labels) && ptr(procs[1], "*LookupVertexAdjOut").loadData == b.loadData
+//@   ensures ve: b.lastType == gdbi.VertexData && b.toType == gdbi.EdgeData ==> len(procs) == 2 && dyn(procs[0], "*InE") && ptr(procs[0], "*InE") != nil && ptr(procs[0], "*InE").db == b.db && same(ptr(procs[0], "*InE").labels, b.labels) && ptr(procs[0], "*InE").loadData == b.loadData && dyn(procs[1], "*OutE") && ptr(procs[1], "*OutE") != nil && ptr(procs[1], "*OutE").db == b.db && same(ptr(procs[1], "*OutE").labels, b.labels) && ptr(procs[1], "*OutE").loadData == b.loadData
+//@   ensures ev: b.lastType == gdbi.EdgeData ==> len(procs) == 2 && dyn(procs[0], "*LookupEdgeAdjIn") && ptr(procs[0], "*LookupEdgeAdjIn") != nil && ptr(procs[0], "*LookupEdgeAdjIn").db == b.db && same(ptr(procs[0], "*LookupEdgeAdjIn").labels, b.labels) && ptr(procs[0], "*LookupEdgeAdjIn").loadData == b.loadData && dyn(procs[1], "*LookupEdgeAdjOut") && ptr(procs[1], "*LookupEdgeAdjOut") != nil && ptr(procs[1], "*LookupEdgeAdjOut").db == b.db && same(ptr(procs[1], "*LookupEdgeAdjOut").labels, b.labels) && ptr(procs[1], "*LookupEdgeAdjOut").loadData == b.loadData
+//@   ensures fed: forall k :: 0 <= k && k < len(procs) ==> closed(chanIn[k]) && wr(chanIn[k]) == nonsig(in, len(in))
+//@   ensures sigelems: forall j :: 0 <= j && j < len(in) && tSignal(in[j]) ==> out[j - nonsig(in, j)] == in[j]
+//@   ensures fedelems: forall k, j :: 0 <= k && k < len(procs) && 0 <= j && j < len(in) && !tSignal(in[j]) ==> chanIn[k][nonsig(in, j)] == in[j]
+//@   ensures results: forall k, m :: 0 <= k && k < len(procs) && 0 <= m && m < len(chanOut[k]) ==> out[(len(in) - nonsig(in, len(in))) + csum(k) + m] == chanOut[k][m]
